@@ -117,7 +117,7 @@ for pid in sorted(props):
             else ("caught, no failing input found" if "VIOLATION" in res else "NOT caught")
         out.append(f"*Seeded mutation* (`seeded/{pid}/`): {meta.get('summary', '?')} — **{verdict}**."
                    + (f" {note}" if note else "") + "\n")
-    for wave, word in (("2", "Second"), ("3", "Third"), ("4", "Fourth"), ("5", "Fifth"), ("6", "Sixth")):
+    for wave, word in (("2", "Second"), ("3", "Third"), ("4", "Fourth"), ("5", "Fifth"), ("6", "Sixth"), ("7", "Seventh")):
         s2 = seeded(pid, wave)
         if s2:
             meta, res, note = s2
@@ -144,7 +144,7 @@ for k in sorted(known, key=lambda k: (k["property"], k["status"])):
 out.append("")
 # section 6 table: seeded mutations
 rows = []
-for wave in ("", "2", "3", "4", "5", "6"):
+for wave in ("", "2", "3", "4", "5", "6", "7"):
   for pid in sorted(props):
     s6 = seeded(pid, wave)
     if not s6:
